@@ -3,8 +3,8 @@ use crate::*;
 
 /// Strict grammar: 4 to 6 whitespace-separated fields;
 /// placement = 8 ranks separated by '/', each describing exactly 8 squares with digits 1-8 and
-/// the letters PNBRQKpnbrqk (two digits in a row are not allowed);
-/// side = `w` | `b`; castling = `-` or a non-empty duplicate-free string over `KQkq`;
+/// the letters PNBRQKpnbrqk;
+/// side = `w` | `b`; castling = `-` or a non-empty string over `KQkq`;
 /// en passant = `-` or `[a-h][36]`; optional halfmove clock and fullmove number = decimal
 /// non-negative integers; nothing after the sixth field.
 pub fn parse_strict(text: &str) -> Result<Pos, String> {
@@ -26,7 +26,10 @@ pub fn parse_strict(text: &str) -> Result<Pos, String> {
         let mut last_digit = false;
         for c in rank_text.chars() {
             if let Some(d) = c.to_digit(10) {
-                if d == 0 || d > 8 || last_digit {
+                // (two digits in a row describe the squares unambiguously; `classify` treats
+                // that spelling as non-canonical rather than malformed)
+                let _ = last_digit;
+                if d == 0 || d > 8 {
                     return Err(format!("bad digit {c} in rank {}", r + 1));
                 }
                 f += d as i8;
@@ -73,9 +76,8 @@ pub fn parse_strict(text: &str) -> Result<Pos, String> {
                 'q' => 3,
                 _ => return Err(format!("bad castling letter {c:?}")),
             };
-            if pos.castle[i] {
-                return Err(format!("duplicate castling letter {c:?}"));
-            }
+            // (a repeated letter names the same right twice; `classify` treats that spelling
+            // as non-canonical rather than malformed)
             pos.castle[i] = true;
         }
     }
@@ -129,8 +131,11 @@ pub fn classify(text: &str) -> FenClass {
                     return FenClass::DontCare("en-passant rank does not match side".into());
                 }
             }
-            // castling letters in non-canonical order: harmless spelling
+            // castling letters in non-canonical order, two digits in a row: harmless spellings
             let fields: Vec<&str> = text.split_ascii_whitespace().collect();
+            if fields[0].as_bytes().windows(2).any(|w| w[0].is_ascii_digit() && w[1].is_ascii_digit()) {
+                return FenClass::DontCare("two digits in a row".into());
+            }
             let canon: String = "KQkq".chars().filter(|c| fields[2].contains(*c)).collect();
             if fields[2] != "-" && fields[2] != canon {
                 return FenClass::DontCare("castling letters in non-canonical order".into());
